@@ -3,8 +3,27 @@
 SUBJ = "'" + "a" * 28 + "c'"
 
 
+TINY = {
+    "replaceAll_empty": "'abc'.replaceAll('', '-').length", "replaceAll_empty_fn": "'abc'.replaceAll('', function(){ return '-' }).length",
+    "replace_empty": "'abc'.replace('', '-').length", "split_empty": "'abc'.split('').length", "split_empty_rx": "'abc'.split(/(?:)/).length",
+    "split_lookahead": "'abc'.split(/(?=b)/).length", "match_empty_g": "'abc'.match(/x*/g).length", "replace_empty_rx_g": "'abc'.replace(/x*/g, '-').length",
+    "replaceAll_empty_rx": "'abc'.replaceAll(/(?:)/g, '-').length", "search_empty": "'abc'.search('')", "indexOf_empty_far": "'abc'.indexOf('', 99)",
+    "lastIndexOf_empty": "'abc'.lastIndexOf('')", "repeat_zero": "'abc'.repeat(0).length", "repeat_empty_big": "''.repeat(1e9).length",
+    "padlike_concat": "'a'.concat().length", "join_empty": "[].join('').length", "slice_nan": "'abc'.slice(NaN, NaN).length",
+    "substring_swap": "'abc'.substring(5, -5).length", "exec_empty_g_loop": "(function(){ var r = /x*/g, n = 0; while (r.exec('ab') && n < 5) { n++; if (r.lastIndex === 0) break; r.lastIndex++ } return n })()",
+    "test_sticky_empty": "(/(?:)/y.test('') ? 1 : 0)", "matchall_like": "'aXbX'.split('X').length", "array_splice_zero": "[1,2,3].splice(1, 0).length",
+    "array_fill_like": "[].concat([], []).length", "array_indexOf_nan": "[NaN].indexOf(NaN)", "sort_equal": "[1,1,1].sort(function(){ return 0 }).length",
+    "stringify_empty": "JSON.stringify({}).length", "parse_ws": "JSON.parse('  [ ]  ').length", "toFixed_zero": "(0).toFixed(0).length",
+    "parseInt_empty": "(isNaN(parseInt('')) ? 1 : 0)", "trim_ws_only": "'   '.trim().length", "includes_empty": "('abc'.includes('') ? 1 : 0)",
+    "startsWith_empty_far": "('abc'.startsWith('', 99) ? 1 : 0)", "charAt_big": "'abc'.charAt(1e9).length", "fromCharCode_none": "String.fromCharCode().length",
+    "concat_none": "[].concat().length", "keys_empty": "Object.keys({}).length", "reduce_single": "[5].reduce(function(a, b){ return a + b })",
+}
+
+
 def loop_src(loop, finite):
     """statement(s) that keep running (or, finite twin, stop after a few hundred steps); leaves a number in r"""
+    if loop.startswith("tiny_"):
+        return "r = %s;" % TINY[loop[5:]]
     if loop == "while":
         return "var i=0; while (%s) { i++ } r = i;" % ("i<40" if finite else "true")
     if loop == "for":
@@ -67,6 +86,17 @@ def loop_src(loop, finite):
         rx = {"literal": lit, "RegExp_str": "RegExp('%s', '%s')" % (pat, flags), "new_RegExp_str": "new RegExp('%s', '%s')" % (pat, flags),
               "new_RegExp_regex": "new RegExp(%s)" % lit, "RegExp_regex": "RegExp(%s, '%s')" % (lit, flags),
               "string_pattern": "'%s'" % pat, "lookahead_copy": "new RegExp(%s)" % lit}[ctor]
+        ROUTES = {"testdetached": "var t = rx.test; r = t(%s) ? 1 : 0;", "execdetached": "var t = rx.exec; r = t(%s) ? 1 : 0;",
+                  "testcall": "r = rx.test.call(rx, %s) ? 1 : 0;", "testapply": "r = rx.test.apply(rx, [%s]) ? 1 : 0;",
+                  "sometest": "r = [%s].some(rx.test) ? 1 : 0;", "mapexec": "r = [%s].map(rx.exec)[0] ? 1 : 0;"}
+        SROUTES = {"replaceapply": "var q = S.replace.apply(S, [rx, 'z']); r = q.length;", "matchcall": "var q = S.match.call(S, rx); r = q ? 1 : 0;",
+                   "splitapply": "var q = S.split.apply(S, [rx]); r = q.length;"}
+        if api in ROUTES or api in SROUTES:
+            if ctor == "string_pattern" and api in ROUTES:
+                rx = "new RegExp(%s)" % rx
+            if api in ROUTES:
+                return "var rx = %s; %s" % (rx, ROUTES[api] % SUBJ)
+            return "var rx = %s; var S = %s; %s" % (rx, SUBJ, SROUTES[api])
         if api in ("test", "exec"):
             if ctor == "string_pattern":
                 rx = "new RegExp(%s)" % rx
